@@ -241,6 +241,27 @@ def run_crash(shard, ctx):
                 continue
             # and once more: the state left by that recovery must again be good
             fresh_check(ctx, scene, ref, f"crash:{scenario}:second-load-after-recovery", case)
+        # the same points again, but the interruption is an exception raised inside the process
+        # (Ctrl-C at a statement, ENOSPC at a write/close): clean-up code runs, unlike after a kill
+        ks2 = [k for k in range(len(locs)) if locs[k].startswith(("raw:", "os.")) or k % (3 if shard["size"] == "small" else 40) == 0]
+        for k in ks2:
+            scene.restore(snap)
+            hit, loc, res = sched.run_until_interrupt(scene.fa, k)
+            if not hit:
+                continue
+            ctx.case()
+            ctx.count("interrupt:runs")
+            if res and res[0] == "ok":
+                ctx.count("interrupt:swallowed-by-the-code")
+                if classify_result(res, ref) == "WRONG":
+                    ctx.violation(f"interrupt:{scenario}:returned-silently-wrong:{wrong_sig(res, ref)}", describe_wrong(res, ref), {"kind": "interrupt", "scenario": scenario, "size": shard["size"], "k": k, "seed": shard["seed"], "index": shard["index"]})
+            sh = "i" + scene.state_hash()
+            if sh in states:
+                continue
+            states[sh] = (k, loc)
+            ctx.nontrivial(["interrupt", scenario, shard["size"], sh])
+            case = {"kind": "interrupt", "scenario": scenario, "size": shard["size"], "k": k, "seed": shard["seed"], "index": shard["index"]}
+            fresh_check(ctx, scene, ref, f"interrupt:{scenario}:raised-at-{_locclass(loc)}", case)
         ctx.count(f"crash:distinct-states:{scenario}:{shard['size']}", len(states))
         if len(ctx.samples) < 2:
             ctx.sample({"driver": "crash", "scenario": scenario, "size": shard["size"], "yield_points": len(locs), "distinct_states": len(states), "some_points": locs[:: max(1, len(locs) // 12)][:14]})
@@ -442,14 +463,16 @@ def replay(case, ctx):
     if case["kind"] == "history":
         run_history(ctx, Scene(scratch / "hist", symlink=case.get("symlink", False)), case["steps"], rng_for(case["seed"], "c15hv", case["index"], case["i"]), case)
         return
-    rng = rng_for(case["seed"], "c15crash" if case["kind"] == "crash" else "c15sched", case["index"])
-    if case["kind"] == "crash":
+    rng = rng_for(case["seed"], "c15crash" if case["kind"] in ("crash", "interrupt") else "c15sched", case["index"])
+    if case["kind"] in ("crash", "interrupt"):
         data = SMALL if case["size"] == "small" else large_fasta(rng, 800)
         old = SMALL2 if case["size"] == "small" else large_fasta(rng_for(case["seed"], "old"), 700)
         scene = Scene(scratch / "crash")
         scene.setup(case["scenario"], data, old)
         ref = reference(data)
-        if case["k"] is not None:
+        if case["k"] is not None and case["kind"] == "interrupt":
+            sched.run_until_interrupt(scene.fa, case["k"])
+        elif case["k"] is not None:
             sched.run_until_crash(scene.fa, case["k"])
         ctx.case()
         fresh_check(ctx, scene, ref, f"crash:{case['scenario']}:replay", case)
@@ -515,6 +538,7 @@ def gates(c, tier):
         "history:fasta-via-symlink-shards": 1,
         "crash:runs": 400,
         "crash:at-raw-file-op": 100,
+        "interrupt:runs": 150,
         "sched:runs": 600,
         "sched:reader-overlapped-writer": 20,
         "sched:outcome:loaded-from-cache": 50,
